@@ -118,6 +118,24 @@ rule('X7', 'arguments', r"macro_rules! impl_arg_fromstr \{.*?\n\}\n\nimpl_arg_fr
      'NOT MIRRORED: FromArgument impls for char/bool/integers/floats (one-line str::parse wrappers generated by a '
      'macro_rules!); only derive output calls them', flags=re.M | re.S)
 
+# ---- history ----------------------------------------------------------------------------------------
+_HSL = r'(self\.buffer\.as_slice\(\)\[[^\]\n]*\])'
+rule('D3', 'history', _HSL + r'\s*\.iter\(\)\s*\.rev\(\)\s*\.position\(\|b\| b == &0\)\s*\.map\(\|pos\| ([^)\n]*)\)\s*\.unwrap_or\(0\)',
+     r'(match crate::verif_specs::rposition_eq(&\1, 0) { Some(pos) => \2, None => 0 })', 1,
+     'iter().rev().position(==) == distance of the last match from the end (shim contract); Option::map(closure).unwrap_or(0) == match')
+rule('D3', 'history', _HSL + r'\s*\.iter\(\)\s*\.position\(\|b\| b == &0\)\s*\.map\(\|pos\| ([^)\n]*)\)',
+     r'(match crate::verif_specs::position_eq(&\1, 0) { Some(pos) => Some(\2), None => None })', 1,
+     'iter().position(==) == first index holding the value (shim contract); Option::map(closure) == match')
+rule('D3', 'history', _HSL + r'\s*\.iter\(\)\s*\.position\(\|b\| b == &0\)',
+     r'crate::verif_specs::position_eq(&\1, 0)', 2,
+     'iter().position(==) == first index holding the value (shim contract)')
+rule('D13', 'history', r'Some\(cursor\) if cursor > 0 => cursor,\n(\s*)None if self\.used > 0 => self\.used,\n\s*_ => return None,',
+     r'Some(cursor) => if cursor > 0 { cursor } else { return None },\n\1None => if self.used > 0 { self.used } else { return None },', 1,
+     'match guards followed by a `return` arm lose the resolution of final(self) in Verus (tool limitation, '
+     'design-probes/probe_match_guard_return_limitation.rs): guards moved into the arms, same control flow')
+rule('D3', 'history', r'text\.as_bytes\(\)\.contains\(&0\)', 'crate::verif_specs::contains_byte(text.as_bytes(), 0)', 1,
+     'slice::contains == existence of an equal element (shim contract)')
+
 
 def apply(module, src, log):
     for r in RULES:
